@@ -133,7 +133,7 @@ __CPROVER_loop_invariant((CM->gpos >= 0 && index1 == (unsigned long)CM->gouter &
 __CPROVER_decreases(Cinner.m_end - Cinner.m_id)
 //@end
 
-//@harness h_GFP_compute enforce=GreensFunctionPart_compute replay=sparsewalk:gfp props=C01,C17 min_obl=4584 timeout=900 reach=2
+//@harness h_GFP_compute enforce=GreensFunctionPart_compute replay=sparsewalk:gfp props=C01,C11,C17 min_obl=4584 timeout=900 reach=2
 void h_GFP_compute(void)
 {
   struct GreensFunctionPart *p;
